@@ -544,6 +544,16 @@ def extract_env_renderers(repo: str) -> dict:
     joins = [n for n in ast.walk(fn) if isinstance(n, ast.Call) and isinstance(n.func, ast.Attribute) and n.func.attr == "join"
              and isinstance(n.func.value, ast.Constant)]
     out["gc_sep"] = _one(joins, "get_command: join of the export statements").func.value.value
+    # ---- the built-in job-script template of the queue-manager connectors ----
+    with open(os.path.join(repo, "streamflow/deployment/connector/queue_manager.py")) as f:
+        qtree = ast.parse(f.read())
+    defaults = [k.value.value for n in ast.walk(qtree) if isinstance(n, ast.Call) and ast.unparse(n.func).endswith("CommandTemplateMap")
+                for k in n.keywords if k.arg == "default" and isinstance(k.value, ast.Constant) and isinstance(k.value.value, str)]
+    default = _one(sorted(set(defaults)), "queue_manager.py: literal default template of CommandTemplateMap")
+    placeholder = "{{streamflow_command}}"
+    if not default.endswith(placeholder) or "{{" in default[: -len(placeholder)]:
+        raise TranslateError(f"queue_manager.py: the default template {default!r} is not `<text>{placeholder}`")
+    out["qm_default_prefix"] = default[: -len(placeholder)]
     kws = {k.arg: ast.unparse(k.value) for n in ast.walk(fn) if isinstance(n, ast.Call) and isinstance(n.func, ast.Attribute)
            and n.func.attr == "render" for k in n.keywords if k.arg}
     if kws.get("streamflow_workdir") != "workdir" or kws.get("streamflow_command") != "command":
